@@ -266,7 +266,9 @@ impl Subject for C07 {
                         self.sched.push((String::new(), s as u64, cost as u64));
                         if *direct {
                             let w = waited_ns.unwrap_or(0) as i64;
-                            if now + w != s {
+                            // too short a wait releases the caller early; a longer one (rounding up) does not
+                            // contradict the statement, within a millisecond
+                            if now + w < s || now + w > s + 1_000_000 {
                                 return Err(format!("wait-value: perform_checking answered wait {} ns, scheduled slot is {} ns away", w, s - now));
                             }
                         } else {
@@ -274,7 +276,8 @@ impl Subject for C07 {
                             if after < s {
                                 return Err(format!("released-early: build() returned {} ns before the scheduled time (slept {:?} ns, wait {} ns)", s - after, sleeps, s - now));
                             }
-                            if after > s + 1 {
+                            // "held until its scheduled time": more than a millisecond beyond it is not "until"
+                            if after > s + 1_000_000 {
                                 return Err(format!("held-too-long: build() returned {} ns after the scheduled time", after - s));
                             }
                         }
@@ -396,14 +399,14 @@ impl Subject for C07 {
                     }
                     if *direct {
                         let w = waited.unwrap_or(0);
-                        if now * 1_000_000 + w != s * 1_000_000 {
+                        if now * 1_000_000 + w < s * 1_000_000 || now * 1_000_000 + w > s * 1_000_000 + 1_000_000 {
                             return Err(format!("wait-value: perform_checking answered a wait of {} (nanoseconds by the TokenResult contract), the scheduled slot is {} ms away", w, s - now));
                         }
                     } else {
                         if after_ns < s * 1_000_000 {
                             return Err(format!("released-early: build() returned {} ns before the scheduled time (wait {} ms, slept {:?} ns)", s * 1_000_000 - after_ns, s - now, sleeps));
                         }
-                        if after_ns > s * 1_000_000 {
+                        if after_ns > s * 1_000_000 + 1_000_000 {
                             return Err(format!("held-too-long: build() returned {} ns after the scheduled time", after_ns - s * 1_000_000));
                         }
                     }
